@@ -9,3 +9,4 @@ ASSUMPTIONS = ["A-MATH: a change of alignment reference / z-axis convention acts
 
 from vt.contracts import dfun_sym, iface_amp, su2  # noqa: F401,E402
 from vt.contracts import dgroup  # noqa: F401,E402  (D(R1) D(R2) = D(R1 R2): representation + homomorphism lemma)
+from vt.contracts import align_sym  # noqa: F401,E402  (frame bookkeeping of cal_angle.py: chain boosts, frame matrices, alignment step)
